@@ -657,7 +657,40 @@ fn shell_level(ctx: &Ctx, n: usize) {
     );
 }
 
+/// The result of a tilde expansion is "treated as if quoted" (XCU 2.6.1): used as a `case`
+/// pattern or as the pattern of a prefix/suffix removal its characters match only themselves.
+fn tilde_patterns(ctx: &Ctx) {
+    let homes = ["*", "a*", "[ab]", "?", "a?c", "*b", "[!a]", "ab", "/x/*"];
+    let strings = ["*", "a*", "ab", "abc", "a", "b", "?", "[ab]", "a?c", "*b", "[!a]", "/x/*", "/x/y", "xab", "ab*"];
+    for home in homes {
+        for s in strings {
+            let script = format!(
+                "HOME='{home}'; s='{s}'\ncase $s in ~) probe case match;; *) probe case no;; esac\ncase $s in ~/t) probe case2 match;; *) probe case2 no;; esac\nprobe trims \"${{s#~}}\" \"${{s##~}}\" \"${{s%~}}\" \"${{s%%~}}\"\n"
+            );
+            let out = vsh::run_script(&script, Strategy::Fifo);
+            ctx.eval();
+            ctx.count("tilde_pattern_cases", 1);
+            let ev = |id: &str| out.events.iter().find(|e| e.kind == "probe" && e.args.first().map(|a| a.as_str()) == Some(id)).map(|e| e.args[1..].to_vec());
+            let want_case = if s == home { "match" } else { "no" };
+            let want_case2 = if *s == format!("{home}/t") { "match" } else { "no" };
+            let pre = s.strip_prefix(home).unwrap_or(s).to_string();
+            let suf = s.strip_suffix(home).unwrap_or(s).to_string();
+            let want_trims = vec![pre.clone(), pre, suf.clone(), suf];
+            let got = (ev("case"), ev("case2"), ev("trims"));
+            if got != (Some(vec![want_case.to_string()]), Some(vec![want_case2.to_string()]), Some(want_trims.clone())) {
+                ctx.violation(
+                    "shell:tilde-result-as-pattern",
+                    format!("HOME={home:?}, s={s:?}: case ~ / case ~/t / trims gave {got:?}, expected {want_case:?} / {want_case2:?} / {want_trims:?}\nscript:\n{script}stderr:\n{}", out.err()),
+                );
+            } else if s.starts_with(home) || s.ends_with(home) {
+                ctx.nontrivial_str(&format!("tilde|{home}|{s}"));
+            }
+        }
+    }
+}
+
 pub fn run(ctx: &Ctx) {
+    tilde_patterns(ctx);
     exhaustive(ctx);
     brackets(ctx);
     *ctx.exhaustive.lock().unwrap() = Some(true);
